@@ -5,7 +5,7 @@
     No proofs here (lemmas: Proofs/StoreLib.v). *)
 From Verif Require Import Base.Prelude Base.IntCodec.
 
-Definition store := gmap bytes bytes.
+Notation store := (@gmap bytes (@list_eq_dec N N_eq_dec) (@list_countable N N_eq_dec N_countable) bytes) (only parsing).
 
 (** [storage.Find(ctx, p, None)]: the (key, value) pairs whose key has prefix
     [p], ascending in the byte order of the keys. *)
